@@ -1,5 +1,6 @@
 (* C07 — Corrupt or hostile bytes never panic or hang any decode entry point (partial). *)
-From QCo.Lemmas Require Import Tactics CodecL.
+From QCo.Lemmas Require Import Tactics CodecL NoPanicL.
+From QCo.Model Require Import Reader.
 From QCo.Model Require Import Base Consts DType Codec.
 Open Scope N_scope.
 
@@ -31,3 +32,21 @@ Theorem C07_gcd_field_sound : forall range s,
   | Panic => False
   end.
 Proof. exact read_gcd_sound. Qed.
+
+(* The full statement on the decompressor state machine: for EVERY byte string (the payloads of
+   the write operations are arbitrary), EVERY sequence of calls (write, header, chunk_metadata,
+   chunk_body, skip_chunk_body, iterator next with any limit, free_compressed_memory,
+   simple_decompress) and every data type, no call ever reaches one of the model's hazard
+   points (usize/U subtraction underflow, lower + offset * gcd overflow, n - n_processed
+   underflow): every output is numbers, an item, or an error value.  Termination is by
+   construction (every model function is structurally recursive or fuelled). *)
+Theorem C07_no_panic : forall d ops, Forall (fun o => o <> ROPanic) (snd (r_run d r_init ops)).
+Proof. exact no_panic. Qed.
+
+Theorem C07_whole_file_no_panic : forall d bytes, decode_file d bytes <> Panic.
+Proof. exact decode_file_no_panic. Qed.
+
+(* metadata accepted by the parser always carries sane prefixes: gcd >= 1, lower <= upper <= max *)
+Theorem C07_parsed_metadata_sane : forall f d s m r, parse_meta f d s = Ok (m, r) ->
+  Forall (sane_prefix (ubits (pdt f d))) (m_table m).
+Proof. exact parse_meta_sane. Qed.
